@@ -124,6 +124,18 @@ CLAIMED.update({
    note="only the shapes of the formulas and their mutual consistency are decided; one defect (wavefront formation in partial non-power-of-two work-groups) found and repaired by a fix: commit, after which rule R08.3 was added as its structural necessary condition"),
 })
 
+# sentences added to the level text of a property in later rounds (eighth / ninth round)
+ADDENDA = {
+ "C02": " The FLAT offset is widened through int32 at every 64-bit use in the coalescer (R02.10), and the lane info of a load is matched to a transaction register by register (R02.11).",
+ "C03": " Every widening of the signed FLAT/GLOBAL offset to 64 bits passes through int32 in both ALUs (R03.37; DS-only functions exempt).",
+ "C04": " Packed VOP3P rows decode no ABS/OMOD (R04.25); a decoder that stores the raw NEG/ABS field derives the per-source flags and the printer arm of that format reads them (R04.26); the literal size step is judged with decoder helpers expanded at their call sites (R04.5).",
+ "C06": " A vector handler reads an operand once outside its lane loop only if the decoder of every format reaching the handler builds that operand as a non-register constant (R06.hoist).",
+ "C10": " The buddy block serving a multi-page request has the order established by the search loop (1 << order) < numPages * pageSize (or c + bits.Len(uint(numPages-1))) and the free-list level is derived from it (R10.12).",
+ "C12": " The engine hand-off (re-run request, claim of engineRunning) is decided only after the tick was scheduled, helpers expanded (R12.13); nothing is traced for a command after CommandQueue.Dequeue in the functions that retire it (R12.14).",
+ "C18": " The splitting loops of the driver's copy paths take min(remaining, bytes left in the page) per piece (R18.8, the check of R11.3): pages of distributed buffers and unified devices are not physically consecutive.",
+ "C19": " The driver's one-page gate is closed only after a successful Send and reopened on every path of the acknowledgement handler (R19.8).",
+}
+
 PENDING = {}
 
 NOT_APPLICABLE = {
@@ -144,7 +156,7 @@ def main():
             "evidence_file": f"/verif/evidence/{pid}.json",
             "replay_cmd_template": "cat {path}",
             "engine": "mgpucheck",
-            "level_claimed": {"category": "other", "text": m["text"], "design_ref": "DESIGN.md section " + m["ref"]},
+            "level_claimed": {"category": "other", "text": m["text"] + ADDENDA.get(pid, ""), "design_ref": "DESIGN.md section " + m["ref"]},
             "level_note": m["note"],
             "technique": m["technique"],
         })
